@@ -133,6 +133,8 @@ class Session:
 
     # ------------------------------------------------------------ markers
     def _marker(self, kind, info, client):
+        if kind == 'out' and getattr(self, 'ctx', None):
+            info = dict(info, ctx=self.ctx)
         with self.store.lock:
             self.store.events.append((kind, info, None, client))
 
